@@ -196,6 +196,7 @@ func tn93Oracle() *eval.FExpr {
 
 func C07(c *core.Ctx) {
 	c.Explanation("C07: each of rawDistance, snpDistance and tn93Distance is interpreted abstractly; its column loop is reduced to a per-column transfer function evaluated for all 17x17 symbol pairs (soft gaps), every counter is classified by its truth table against the specified column classes (disjoint base sets; same unambiguous base; both A/C/G/T and different; A<->G; C<->T) from an independent IUPAC oracle, and the returned float expression is compared, as an algebraic identity over rational functions with logarithm atoms, with n/d, n and Tamura-Nei 1993 eq. 7 written out independently; the base-count fields entering eq. 7 are shown to be filled by the scoring reader from the table codes of A, C, G, T and never by the list reader that produces queries.")
+	checkUndefinedDistance(c, "R9")
 	checkMeasureDispatch(c, "R2")
 	checkSoftGapReaders(c, "R6", "pkg/closest")
 	ev := newEval(c)
